@@ -251,6 +251,59 @@ fn gen_u16_list(t: &mut Tape, max: usize) -> Vec<u16> {
     }
 }
 
+/// cipher-suite ids a real peer sends: the TLS 1.3 suites, the two signalling values, common TLS 1.2 suites, NULL, GREASE
+pub const COMMON_CIPHERS: [u16; 20] = [0x1301, 0x1302, 0x1303, 0x1304, 0x1305, 0x00ff, 0x5600, 0xc02b, 0xc02f, 0xc030, 0xcca8, 0xcca9, 0x009c, 0x002f, 0x0035, 0x000a, 0x0000, 0x0a0a, 0xfafa, 0x1306];
+
+/// a cipher-suite id: arbitrary, or (one time in three) one of the ids real peers send
+pub fn gen_cipher_id(t: &mut Tape) -> u16 {
+    if t.chance(85) {
+        COMMON_CIPHERS[t.below(COMMON_CIPHERS.len())]
+    } else {
+        t.u16b()
+    }
+}
+
+fn gen_cipher_list(t: &mut Tape, max: usize) -> Vec<u16> {
+    let mut v = gen_u16_list(t, max);
+    if t.chance(100) {
+        for x in v.iter_mut().take(64) {
+            if t.bool() {
+                *x = COMMON_CIPHERS[t.below(COMMON_CIPHERS.len())];
+            }
+        }
+    }
+    v
+}
+
+/// host names as they occur in server_name extensions, including the shapes a validating parser might treat specially
+pub const HOST_NAMES: [&str; 16] = ["example.com", "localhost", "192.168.0.1", "10.0.0.1", "::1", "2001:db8::1", "127.0.0.1", "xn--bcher-kva.example", "a.b.c.d.e.f.example", "example.com.", "EXAMPLE.COM", "1.2.3.4.5", "[::1]", "256.1.1.1", ".", "*.example.com"];
+
+/// the extension block of a TLS 1.3 ServerHello / HelloRetryRequest: supported_versions in every encoding the parser accepts
+/// (2-byte selected version, list form with 0 / 1 / 2 entries), key_share, cookie, pre_shared_key, plus arbitrary others, in any order
+pub fn gen_tls13_server_ext(t: &mut Tape) -> Vec<u8> {
+    let n = 1 + t.below(4);
+    let mut e = Enc::new();
+    for _ in 0..n {
+        let x = match t.below(8) {
+            0 | 1 => MExt::SupportedVersions(vec![if t.chance(200) { 0x0304 } else { t.u16b() }], true),
+            2 => MExt::SupportedVersions(vec![], false),
+            3 => MExt::SupportedVersions(vec![0x0304], false),
+            4 => MExt::SupportedVersions(vec![0x0304, 0x0303], false),
+            5 => {
+                let i = KNOWN_EXT_TYPES.iter().position(|&x| x == 51).unwrap_or(0);
+                gen_ext_known(t, i, 80)
+            }
+            6 => {
+                let i = KNOWN_EXT_TYPES.iter().position(|&x| x == if t.bool() { 44 } else { 41 }).unwrap_or(0);
+                gen_ext_known(t, i, 80)
+            }
+            _ => gen_ext(t, 80),
+        };
+        x.encode(&mut e);
+    }
+    e.buf
+}
+
 /// RFC 8446 4.1.3: the ServerHello.random that marks a HelloRetryRequest (SHA-256 of "HelloRetryRequest")
 pub const HRR_RANDOM: [u8; 32] = [
     0xcf, 0x21, 0xad, 0x74, 0xe5, 0x9a, 0x61, 0x11, 0xbe, 0x1d, 0x8c, 0x02, 0x1e, 0x65, 0xb8, 0x91, 0xc2, 0xa2, 0x11, 0x16, 0x7a, 0xbb, 0x8c, 0x5e, 0x07, 0x9e, 0x09, 0xe2, 0xc8, 0xa8, 0x33, 0x9c,
@@ -286,7 +339,7 @@ pub fn gen_hs_kind(t: &mut Tape, kind: usize, budget: usize) -> MHs {
             let version = t.u16b();
             let random = gen_random(t);
             let sid = gen_sid(t);
-            let ciphers = gen_u16_list(t, (b / 2).min(32767));
+            let ciphers = gen_cipher_list(t, (b / 2).min(32767));
             let nc = t.small(255);
             let comp = t.bytes(nc);
             let left = b.saturating_sub(2 * ciphers.len());
@@ -294,18 +347,29 @@ pub fn gen_hs_kind(t: &mut Tape, kind: usize, budget: usize) -> MHs {
             MHs::ClientHello { version, random, sid, ciphers, comp, ext }
         }
         2 => {
-            let version = t.pick(&[0x0303u16, 0x0301, 0x0302, 0x0300]);
+            let mut version = t.pick(&[0x0303u16, 0x0301, 0x0302, 0x0300]);
             let random = gen_random(t);
             let sid = gen_sid(t);
-            let cipher = t.u16b();
+            let cipher = gen_cipher_id(t);
             let comp = t.u8();
-            let ext = if version == 0x0300 { None } else { gen_opt_ext(t, b) };
+            let mut ext = if version == 0x0300 { None } else { gen_opt_ext(t, b) };
+            // the TLS 1.3 shape (legacy version 0x0303 + supported_versions & co in the block): most of the time when the random is
+            // one of the RFC 8446 markers, now and then otherwise
+            let special = random == HRR_RANDOM || random[24..31] == *b"DOWNGRD";
+            if t.chance(if special { 190 } else { 40 }) && b >= 40 {
+                if t.chance(220) {
+                    version = 0x0303;
+                }
+                if version != 0x0300 {
+                    ext = Some(gen_tls13_server_ext(t));
+                }
+            }
             MHs::ServerHello { version, random, sid, cipher, comp, ext }
         }
-        3 => MHs::ServerHelloD18 { version: 0x7f12, random: gen_random(t), cipher: t.u16b(), ext: gen_opt_ext(t, b) },
+        3 => MHs::ServerHelloD18 { version: 0x7f12, random: gen_random(t), cipher: gen_cipher_id(t), ext: gen_opt_ext(t, b) },
         4 => MHs::NewSessionTicket { lifetime: t.u32b(), ticket: t.blob(b) },
         5 => MHs::EndOfEarlyData,
-        6 => MHs::HelloRetryRequest { version: t.u16b(), cipher: t.u16b(), ext: gen_opt_ext(t, b) },
+        6 => MHs::HelloRetryRequest { version: t.u16b(), cipher: gen_cipher_id(t), ext: gen_opt_ext(t, b) },
         7 => {
             let n = t.count((b / 3).min(20000));
             let mut chain = Vec::new();
@@ -534,7 +598,19 @@ pub fn gen_ext_known(t: &mut Tape, idx: usize, budget: usize) -> MExt {
             if n > 5 {
                 return MExt::Sni((0..n).map(|i| ((i % 2) as u8, vec![b'a'; i % 2])).collect());
             }
-            MExt::Sni((0..n).map(|_| (if t.chance(200) { 0 } else { t.u8() }, if t.chance(90) { t.utf8_text(b.min(600)) } else { t.small_blob(b.min(300)) })).collect())
+            MExt::Sni(
+                (0..n)
+                    .map(|_| {
+                        let ty = if t.chance(200) { 0 } else { t.u8() };
+                        let name = match t.weighted(&[3, 3, 4]) {
+                            0 => HOST_NAMES[t.below(HOST_NAMES.len())].as_bytes().to_vec(),
+                            1 => t.utf8_text(b.min(600)),
+                            _ => t.small_blob(b.min(300)),
+                        };
+                        (ty, name)
+                    })
+                    .collect(),
+            )
         }
         1 => MExt::MaxFragmentLength(t.u8()),
         5 => MExt::StatusRequest(if t.chance(60) { None } else { Some((if t.bool() { 1 } else { t.u8() }, t.small_blob(b.saturating_sub(1).min(400)))) }),
@@ -907,7 +983,7 @@ pub fn gen_dtls_body(t: &mut Tape, budget: usize) -> (u8, MDtlsBody) {
             let sid = gen_sid(t);
             let nck = t.len(255);
             let cookie = t.bytes(nck);
-            let ciphers = gen_u16_list(t, (b / 4).min(2000));
+            let ciphers = gen_cipher_list(t, (b / 4).min(2000));
             let nc = t.small(255);
             let comp = t.bytes(nc);
             let ext = gen_opt_ext(t, b / 2);
@@ -919,7 +995,7 @@ pub fn gen_dtls_body(t: &mut Tape, budget: usize) -> (u8, MDtlsBody) {
         }
         2 => (
             2,
-            MDtlsBody::ServerHello { version: gen_version(t), random: gen_random(t), sid: gen_sid(t), cipher: t.u16b(), comp: t.u8(), ext: gen_opt_ext(t, b) },
+            MDtlsBody::ServerHello { version: gen_version(t), random: gen_random(t), sid: gen_sid(t), cipher: gen_cipher_id(t), comp: t.u8(), ext: gen_opt_ext(t, b) },
         ),
         3 => {
             let n = t.small(6);
@@ -1125,11 +1201,36 @@ pub fn gen_dh(t: &mut Tape) -> MDh {
     MDh { p, g: t.blob(gmax), ys: t.blob(65535) }
 }
 
+fn hexbytes(h: &str) -> Vec<u8> {
+    (0..h.len() / 2).map(|i| u8::from_str_radix(&h[2 * i..2 * i + 2], 16).unwrap()).collect()
+}
+
+static PRIMES: std::sync::OnceLock<Vec<Vec<u8>>> = std::sync::OnceLock::new();
+
+#[allow(non_snake_case)]
+fn well_known_primes() -> &'static Vec<Vec<u8>> {
+    PRIMES.get_or_init(|| {
+        vec![
+            hexbytes("ffffffff00000001000000000000000000000000ffffffffffffffffffffffff"),
+            hexbytes("fffffffffffffffffffffffffffffffffffffffffffffffffffffffffffffffeffffffff0000000000000000ffffffff"),
+            hexbytes("fffffffffffffffffffffffffffffffffffffffffffffffffffffffefffffc2f"),
+            hexbytes("ffffffffffffffffffffffffffffffff000000000000000000000001"),
+            hexbytes("7fffffffffffffffffffffffffffffffffffffffffffffffffffffffffffffed"),
+        ]
+    })
+}
+
 pub fn gen_ec_params(t: &mut Tape) -> MEcParams {
     if t.chance(150) {
         MEcParams::Named(t.u16b())
     } else {
-        MEcParams::ExplicitPrime { p: t.blob(255), a: t.blob(255), b: t.blob(255), base: t.blob(255), order: t.blob(255), cofactor: t.blob(255) }
+        let mut p = t.blob(255);
+        if t.chance(70) {
+            // the field primes of the curves servers really send in explicit form (secp256r1, secp384r1, secp256k1, secp224r1, curve25519)
+            let ps = well_known_primes();
+            p = ps[t.below(ps.len())].clone();
+        }
+        MEcParams::ExplicitPrime { p, a: t.blob(255), b: t.blob(255), base: t.blob(255), order: t.blob(255), cofactor: t.blob(255) }
     }
 }
 
